@@ -288,11 +288,11 @@ func (f *g2lFn) assignTo(l ast.Expr, val string, define bool, ind int) []string 
 		if !ok || f.names[o] == "" {
 			f.fail("assignment to `%s` (not a local of this function)", x.Name)
 		}
-		return []string{fmt.Sprintf("%s%s := %s", g2lInd(ind), f.names[o], val)}
+		return append([]string{fmt.Sprintf("%s%s := %s", g2lInd(ind), f.names[o], val)}, f.afterIdentAssign(o, ind)...) // go2lean_own.go: cursors write back
 	case *ast.SelectorExpr:
 		// x.f = v  ⇒  x = { x with f := v }   (x a struct VALUE, possibly itself a field or element)
 		xt := f.typeOf(x.X)
-		if g2lKindOf(xt) != kStruct && !f.inOutBase(x.X) {
+		if g2lKindOf(xt) != kStruct && !f.inOutBase(x.X) && !(g2lIsPtr(xt) && f.ownWritable(x.X)) { // go2lean_own.go
 			f.fail("assignment to `%s` (only fields of struct values; through a pointer the callee's caller would see it)", f.src(l))
 		}
 		n := f.namedOf(xt)
@@ -302,20 +302,24 @@ func (f *g2lFn) assignTo(l ast.Expr, val string, define bool, ind int) []string 
 		if sel := f.g.info.Selections[x]; sel == nil || sel.Kind() != types.FieldVal || len(sel.Index()) != 1 {
 			f.fail("assignment to `%s`", f.src(l))
 		}
-		return f.assignTo(x.X, fmt.Sprintf("{ %s with %s := %s }", f.expr(x.X), f.fieldLean(n, x.Sel.Name), val), false, ind)
+		base, wrap := f.updateBase(x.X) // go2lean_own.go: the pointee of a pointer on a writable path
+		return f.assignThrough(x.X, wrap(fmt.Sprintf("{ %s with %s := %s }", base, f.fieldLean(n, x.Sel.Name), val)), ind)
 	case *ast.IndexExpr:
 		// x[i] = v  ⇒  x = x.set i v   (x an ARRAY value; slices alias their backing array)
 		if out, ok := f.mapAssign(x, val, ind); ok {
 			return out
 		}
-		if _, isArr := f.typeOf(x.X).Underlying().(*types.Array); !isArr && !f.localSliceOK(x.X) { // go2lean_string.go
+		if _, isArr := f.typeOf(x.X).Underlying().(*types.Array); !isArr && !f.localSliceOK(x.X) && !f.ownWritable(x.X) { // go2lean_string.go, go2lean_own.go
 			f.fail("assignment to an element of `%s` (not an array value: slices alias their backing array)", f.src(x.X))
 		}
 		i := f.expr(x.Index)
 		if g2lKindOf(f.typeOf(x.Index)) == kInt {
 			i = "Int.toNat " + g2lPar(i)
 		}
-		return f.assignTo(x.X, fmt.Sprintf("%s.set %s %s", g2lPar(f.expr(x.X)), g2lPar(i), g2lPar(val)), false, ind)
+		return f.assignThrough(x.X, fmt.Sprintf("%s.set %s %s", g2lPar(f.expr(x.X)), g2lPar(i), g2lPar(val)), ind)
+	}
+	if out, ok := f.assignOther(l, val, ind); ok { // go2lean_own.go: *p = v
+		return out
 	}
 	if sx, ok := l.(*ast.StarExpr); ok { // go2lean_codec.go
 		if out, ok := f.starAssign(sx, val, ind); ok {
@@ -392,6 +396,9 @@ func (f *g2lFn) ret(x *ast.ReturnStmt, ind int) []string {
 	}
 	switch len(x.Results) {
 	case 0:
+		if out, ok := f.voidReturn(ind); ok { // go2lean_own.go (UnitVoid configurations)
+			return out
+		}
 		if io := f.inOutNames(); len(io) > 0 && f.fnObj != nil && f.fnObj.Type().(*types.Signature).Results().Len() == 0 {
 			if len(io) == 1 {
 				return []string{g2lInd(ind) + "return " + io[0]}
@@ -625,6 +632,10 @@ func (f *g2lFn) rangeStmt(x *ast.RangeStmt, ind int) []string {
 	var head []string
 	switch g2lKindOf(t) {
 	case kList:
+		if o2, h2, ok := f.rangeCursor(x, k, v, t, ind); ok { // go2lean_own.go
+			out, head = o2, h2
+			break
+		}
 		it := f.fresh("it")
 		if k == nil {
 			out = append(out, fmt.Sprintf("%sfor %s in %s do", g2lInd(ind), it, f.expr(x.X)))
@@ -688,7 +699,7 @@ func (f *g2lFn) stmt(s ast.Stmt, ind int) []string {
 		}
 		return out
 	case *ast.AssignStmt:
-		return f.assign(x, ind)
+		return f.assignOwn(x, ind) // go2lean_own.go
 	case *ast.IncDecStmt:
 		op := token.ADD
 		if x.Tok == token.DEC {
@@ -730,6 +741,7 @@ func (f *g2lFn) stmt(s ast.Stmt, ind int) []string {
 					val = z
 				}
 				out = append(out, f.letLine(ind, o, f.names[o], o.Type(), val))
+				out = append(out, f.foundDecl(o, ind)...) // go2lean_own.go
 			}
 		}
 		return out
@@ -759,6 +771,9 @@ func (f *g2lFn) stmt(s ast.Stmt, ind int) []string {
 			}
 			return []string{g2lInd(ind) + "continue"}
 		}
+	}
+	if out, ok := f.stmtOwn(s, ind); ok { // go2lean_own.go: call statements of functions with in-out parameters
+		return out
 	}
 	f.fail("statement `%s` (%T) is outside the subset", g2lOneLine(f.src(s)), s)
 	return nil
@@ -861,8 +876,9 @@ func (g *g2l) translateFunc(key string) (u *g2lUnit) {
 	if sig.Variadic() && !g.refsOn() { // go2lean_refs.go: the last parameter is the slice
 		f.fail("variadic function")
 	}
-	void := sig.Results().Len() == 0
-	if void && len(g.inOutFor(key)) == 0 {
+	void := sig.Results().Len() == 0 && !g.cfg.UnitVoid    // go2lean_effects.go: the in-out parameters alone are the result
+	unitVoid := sig.Results().Len() == 0 && g.cfg.UnitVoid // go2lean_own.go: Unit × the in-out parameters
+	if (void || unitVoid) && len(g.inOutFor(key)) == 0 {
 		f.fail("no result (a function without result is only called for its effect)")
 	}
 	if fd.Type.Results != nil {
@@ -879,6 +895,7 @@ func (g *g2l) translateFunc(key string) (u *g2lUnit) {
 	var params, remut []string
 	f.initPtrModes(obj)
 	f.initInOut(obj, g.inOutFor(key))
+	f.initOwned(fd) // go2lean_own.go
 	addParam := func(v *types.Var, ptrRecv bool) {
 		name := f.names[v]
 		if name == "" {
@@ -908,7 +925,7 @@ func (g *g2l) translateFunc(key string) (u *g2lUnit) {
 		resT = f.lean(sig.Results())
 	}
 	resT = f.inOutResult(resT, sig.Results().Len())
-	if !void && !g2lTerminates(fd.Body.List) {
+	if !void && !unitVoid && !g2lTerminates(fd.Body.List) {
 		f.fail("the body does not end in a return on every path the translator recognises")
 	}
 	head := fmt.Sprintf("def %s %s : %s :=", u.lean, strings.Join(params, " "), resT)
@@ -927,6 +944,10 @@ func (g *g2l) translateFunc(key string) (u *g2lUnit) {
 		lines = append(lines, f.block(fd.Body.List, 1)...)
 		if void && !g2lTerminates(fd.Body.List) {
 			lines = append(lines, f.ret(&ast.ReturnStmt{}, 1)...)
+		}
+		if unitVoid {
+			vr, _ := f.voidReturn(1)
+			lines = append(lines, vr...)
 		}
 		u.text = head + " Id.run do\n" + strings.Join(lines, "\n") + "\n"
 	}
